@@ -83,7 +83,15 @@ class History:
             # 1 request in 4 may also hit an instance without a lease (its renewal cannot fail)
             cands = drv.renew_candidates(with_leaseless=self.rng.random() < 0.25)
             if cands:
-                drv.op_renew(self.rng.choice(cands))
+                # prefer (6 in 10) an instance whose lease no longer fits before its server's reboot: a renewal that fails
+                H, now = drv.H, self.clock.peek()
+                doomed = [n for n in cands if n in H.apps and H.apps[n]['lease'] and cell.apps[n].server in H.servers and
+                          now + H.apps[n]['lease'] >= H.servers[cell.apps[n].server]['valid_until']]
+                if doomed and self.rng.random() < 0.6:
+                    drv.op_renew(self.rng.choice(doomed))
+                    ctx.count('renewal_requested_for_lease_beyond_reboot')
+                else:
+                    drv.op_renew(self.rng.choice(cands))
         pre = {n: dict(identity=a.identity, renew=a.renew, server=a.server)
                for n, a in cell.apps.items()}
         MON.reset_cycle()
